@@ -176,6 +176,11 @@ class DynWorld(World):
     @classmethod
     def gen_config(cls, rng, tier, faults):
         lib = meshlib.library()
+        if rng.random() < 0.15:
+            # the incremental (Newton) path: a HyperElastic simulation under the same schemes
+            from .dyn_newton import NewtonDyn
+
+            return {"actor": "HyperElastic", "newton": NewtonDyn.gen_newton_config(rng, tier), "nops": int(rng.integers(8, 26)), "faults": bool(faults)}
         actor = cls.ACTORS[int(rng.integers(len(cls.ACTORS)))]
         dim = 2
         cands = [n for n in meshlib.names(dim=2) if lib[n].Nn <= (25 if tier == "quick" else 40) and lib[n].main[0][0] in ("TRI3", "QUAD4", "TRI6", "QUAD8")]
@@ -195,6 +200,19 @@ class DynWorld(World):
         self.clock = seams.ClockSeam(ctx, EasyFEA)
         self.solver = seams.SolverSeam(ctx, Solvers)
         self.actor = cfg["actor"]
+        if "newton" in cfg:
+            from .dyn_newton import NewtonDyn
+
+            try:
+                self.newton = NewtonDyn(cfg, ctx, self.solver)
+            except BaseException:
+                self.close()
+                raise
+            self.gen_op = self.newton.gen_op
+            self.apply = self.newton.apply
+            self.observe = self.newton.observe
+            self.abstract_state = self.newton.abstract_state
+            return
         self.raw = meshlib.library()[cfg["mesh"]]
         self.params = dict(cfg["params"])
         with ctx.sut():
